@@ -38,10 +38,55 @@ def decode(db, h):
 ALPHA = [0x00, 0x01, 0x10, 0x80, 0xFF, 0x7F]
 
 
+class Runner:
+    """executes calls on a real BinaryTrie and records one event per call"""
+
+    def __init__(self, mod, probes):
+        self.exc = importlib.import_module("trie.exceptions")
+        self.db = {}
+        self.trie = mod.BinaryTrie(self.db)
+        self.probes = probes
+        self.ev = []
+        self.calls = []
+
+    def apply(self, a, k, v):
+        n = len(self.ev)
+        trie, db = self.trie, self.db
+        self.calls.append([a, k.hex(), v.hex()])
+        before = dict(db)
+        try:
+            if a == "set":
+                if n % 2:
+                    trie.set(k, v)
+                else:
+                    trie[k] = v
+            elif a == "del":
+                [trie.delete, trie.__delitem__, lambda key: trie.set(key, b"")][n % 3](k)
+            else:
+                trie.delete_subtrie(k)
+            ok = True
+        except self.exc.NodeOverrideError:
+            ok = False
+        except Exception:  # noqa
+            ok = None            # an unexpected exception: neither outcome matches, clauses fail
+        look = []
+        for p in self.probes:
+            try:
+                got = trie.get(p) if n % 2 else trie[p]
+                if (got is not None) != (trie.exists(p) if n % 3 else (p in trie)):
+                    got = b"\xee" * 3
+                look.append([bits_of(p), list(unval(got)) if got is not None else [0, 0]])
+            except Exception:  # noqa
+                look.append([bits_of(p), [238, 4]])
+        gone = len([h for h, body in before.items() if db.get(h) != body])
+        self.ev.append({"a": a, "k": bits_of(k), "v": list(unval(v)), "ok": bool(ok) if ok is not None else "crash",
+                        "st": {"root": decode(db, trie.root_hash), "look": look, "gone": gone}})
+
+    def trace(self):
+        return {"ev": self.ev, "plan": {"probes": [p.hex() for p in self.probes], "calls": self.calls}}
+
+
 def gen_trace(mod, rng):
-    exc = importlib.import_module("trie.exceptions")
-    db = {}
-    trie = mod.BinaryTrie(db)
     pool = set()
     for _ in range(rng.choice([3, 4, 6])):
         k = bytes(rng.choice(ALPHA) for _ in range(rng.choice([1, 1, 2, 2, 3, 4])))
@@ -57,41 +102,26 @@ def gen_trace(mod, rng):
             pool.add(bytes(rng.randrange(256) for _ in range(rng.choice([1, 2, 3]))))
     pool = sorted(pool)
     probes = sorted(set(pool) | {k[:-1] for k in pool if len(k) > 1} | {k + b"\x00" for k in pool[:3]})
-    ev = []
-    for n in range(rng.randint(3, 24)):
+    r = Runner(mod, probes)
+    for _ in range(rng.randint(3, 24)):
         x = rng.random()
-        before = dict(db)
-        try:
-            if x < 0.55:
-                a, k, v = "set", rng.choice(probes if rng.random() < 0.2 else pool), val(rng.choice([0x61, 0x80, 0xC8]), rng.choice([1, 2, 40]))
-                if n % 2:
-                    trie.set(k, v)
-                else:
-                    trie[k] = v
-            elif x < 0.85:
-                a, k, v = "del", rng.choice(probes), b""
-                [trie.delete, trie.__delitem__, lambda key: trie.set(key, b"")][n % 3](k)
-            else:
-                a, k, v = "delsub", rng.choice(probes), b""
-                trie.delete_subtrie(k)
-            ok = True
-        except exc.NodeOverrideError:
-            ok = False
-        except Exception:  # noqa
-            ok = None            # an unexpected exception: neither outcome matches, clauses fail
-        look = []
-        for p in probes:
-            try:
-                got = trie.get(p) if n % 2 else trie[p]
-                if (got is not None) != (trie.exists(p) if n % 3 else (p in trie)):
-                    got = b"\xee" * 3
-                look.append([bits_of(p), list(unval(got)) if got is not None else [0, 0]])
-            except Exception:  # noqa
-                look.append([bits_of(p), [238, 4]])
-        gone = len([h for h, body in before.items() if db.get(h) != body])
-        ev.append({"a": a, "k": bits_of(k), "v": list(unval(v)), "ok": bool(ok) if ok is not None else "crash",
-                   "st": {"root": decode(db, trie.root_hash), "look": look, "gone": gone}})
-    return {"ev": ev}
+        if x < 0.55:
+            r.apply("set", rng.choice(probes if rng.random() < 0.2 else pool),
+                    val(rng.choice([0x61, 0x80, 0xC8]), rng.choice([1, 2, 40])))
+        elif x < 0.85:
+            r.apply("del", rng.choice(probes), b"")
+        else:
+            r.apply("delsub", rng.choice(probes), b"")
+    return r.trace()
+
+
+def rerun_trace(mod, trace):
+    """re-execute the calls of a recorded trace on the current code (./check --replay)"""
+    plan = trace["plan"]
+    r = Runner(mod, [bytes.fromhex(p) for p in plan["probes"]])
+    for a, k, v in plan["calls"]:
+        r.apply(a, bytes.fromhex(k), bytes.fromhex(v))
+    return r.trace()
 
 
 def consts(traces):
